@@ -3,7 +3,10 @@ import common
 from common import Case
 
 TITLE = 'Every deal survives every encoding round trip'
-REQUIRED = ['pbn_round_trip', 'pbn_canonical', 'binary_round_trip', 'np_binary_round_trip', 'json_round_trip',
+LEAN_TARGETS = ['BridgeVerif.Props.C14', 'BridgeVerif.Translated.Hands']
+AUDIT_PROPS = ['C14', 'Translated.Hands']
+REQUIRED = ['Translated.Hands.hands_getitem_translated', 'Translated.Hands.hands_to_binary_translated', 'Translated.Hands.hands_convert_binary_translated', 'Translated.Hands.hands_binary_round_trip_translated', 'Translated.Hands.hands_convert_hand_to_pbn_translated_cases', 'Translated.Hands.hands_to_pbn_translated_cases',
+            'pbn_round_trip', 'pbn_canonical', 'binary_round_trip', 'np_binary_round_trip', 'json_round_trip',
             'json_cards_ascending', 'random_deal_is_partition']
 KEEP_FIRST = 0
 SHARDS = {'quick': 1, 'thorough': 16}
@@ -15,7 +18,8 @@ RULE = ('deals by seeded permutation incl. forced voids and 7-13 card suits, par
         'distinct = distinct op lines.')
 REQUIRED_COUNTERS = {t: ['void', 'long_suit', 'partial_deal', 'malformed_pbn', 'backtracking_field', 'overlap_vectors']
                      for t in ('quick', 'thorough')}
-TRUSTED = ['re.match on DEAL_PATTERN / HAND_PATTERN is replaced by a hand-written backtracking scanner (compared on the stated strings)',
+TRUSTED = ['the MiniPy semantics (Model/MiniPy.lean: value semantics, no aliasing) and the code translator (harness/translate_py.py), validated on every run by executing the translated program next to the real code (counters translated_*)',
+           're.match on DEAL_PATTERN / HAND_PATTERN is replaced by a hand-written backtracking scanner (compared on the stated strings)',
            'random.shuffle is a parameter: the theorem is for every permutation of the pack']
 ASSUMPTIONS = ['CPython sorted / set / str.join', 'numpy zeros / fancy index assignment / where on 52-vectors']
 SEATS = 'NESW'
